@@ -728,7 +728,24 @@ static ak::ContentPtr op_content(const std::string& op, const JV& st, Session& S
     bool eq = f->equal(g, true, true, true, false);
     std::string tf = f->type(default_typestrs())->tostring();
     std::string tl = src->type(default_typestrs())->tostring();
-    extra = ",\"form1\":" + jstr(j1) + ",\"form2\":" + jstr(j2) + ",\"formequal\":" + (eq ? "1" : "0")
+    auto fq = [](const ak::FormPtr& x) -> std::string {
+      std::pair<int64_t, int64_t> mm = x->minmax_depth();
+      std::pair<bool, int64_t> bd = x->branch_depth();
+      std::string out = jint(x->purelist_depth()) + "," + jint(mm.first) + "," + jint(mm.second) + "," + (bd.first ? "1" : "0") + ","
+                      + jint(bd.second) + "," + (x->purelist_isregular() ? "1" : "0") + "," + jint(x->numfields());
+      for (auto& k : x->keys()) out += "," + k;
+      return out;
+    };
+    auto cq = [](const ak::ContentPtr& x) -> std::string {
+      std::pair<int64_t, int64_t> mm = x->minmax_depth();
+      std::pair<bool, int64_t> bd = x->branch_depth();
+      std::string out = jint(x->purelist_depth()) + "," + jint(mm.first) + "," + jint(mm.second) + "," + (bd.first ? "1" : "0") + ","
+                      + jint(bd.second) + "," + (x->purelist_isregular() ? "1" : "0") + "," + jint(x->numfields());
+      for (auto& k : x->keys()) out += "," + k;
+      return out;
+    };
+    extra = ",\"q_content\":" + jstr(cq(src)) + ",\"q_form\":" + jstr(fq(f)) + ",\"q_form2\":" + jstr(fq(g));
+    extra += ",\"form1\":" + jstr(j1) + ",\"form2\":" + jstr(j2) + ",\"formequal\":" + (eq ? "1" : "0")
           + ",\"type_from_form\":" + jstr(tf) + ",\"type_from_layout\":" + jstr(tl);
     return src;
   }
